@@ -6,13 +6,22 @@
    SharedUnchanged.  Negative configurations (a hidden write of the kind the property worries
    about: head bytes patched in a shared buffer, a lazily built index on a shared instance, a
    scratch buffer shared by layouters, a shared slice sorted in place, a package-level table
-   written) must FAIL in TLC, each on exactly the invariants it is expected to break.
+   written or built lazily, a closure of the font caching its last answer, a slice patched and
+   restored in place) must FAIL in TLC, each on exactly the invariants it is expected to break.
 2. V1: the footprints are measured.  Every operation is run alone on every font with a deep
    fingerprint (reflection: unexported fields, maps, slices incl. spare capacity, identities,
    package-level tables) of every shared location of the model before and after.
 3. V2: TLC generates schedules from SharedFont.tla (programs + order of Start/Finish events,
-   N in {2,4,16}); the harness, built with -race, replays them with real goroutines behind a
-   gate.  Reports of the race detector become "race" events.
+   N in {2,4,16}; also with MaxOps=1: one call hammered from all goroutines, MaxOps=2: pairs);
+   the harness, built with -race, replays them with real goroutines behind a gate.  Reports of
+   the race detector become "race" events.  Half of the cases run on a never used instance of
+   the font; for every font and (heavy) operation one *cold* process executes its hammer case
+   before anything else (package-level lazy state is then built by concurrent calls).
+4. Contention (plain build, results only): hammer, pair and 16-goroutine "storm" schedules with
+   every call repeated back to back for some milliseconds and per-glyph queries starting at
+   different glyphs; every repetition must return the run-alone result (state captured by
+   closures, patch-and-restore in place: invisible to fingerprints, and the race detector can
+   be blinded by accidental synchronisation through the standard library).
 All recorded events are validated by TLC against SharedFontTrace.tla, which decides.
 A rejected event is reproduced in isolation before it counts.
 """
@@ -31,9 +40,11 @@ LEVEL = "model_checking"
 MANIFEST = {
     "text": "TLC exhaustively checks SharedFont.tla (2-3 goroutines x 1-2 operations, all interleavings of the abstract "
             "accesses of the footprint table SharedFontOps.tla) for race freedom, sequential equivalence and an unchanged "
-            "shared font, and shows that five hidden-write variants fail. The footprints are bound to the code by deep "
+            "shared font, and shows that eight hidden-write variants fail. The footprints are bound to the code by deep "
             "before/after fingerprints of every shared location around every operation run alone (V1); TLC-generated "
-            "schedules are replayed with 2, 4 and 16 real goroutines under the Go race detector (V2). Every recorded "
+            "schedules (random programs, one call hammered, pairs) are replayed with 2, 4 and 16 real goroutines under the "
+            "Go race detector, on warmed and on never used font instances and in cold processes (V2), and with tight "
+            "loops in a plain build for result comparison under contention. Every recorded "
             "call, fingerprint, concurrent result digest and race report is accepted or rejected by TLC against "
             "SharedFontTrace.tla.",
     "note": "Trusted: TLC, the Go race detector (sees executed accesses only), the reflection fingerprint "
@@ -522,6 +533,10 @@ def _reproduce1(ctx, st, font, bad, events_of_font, key=None):
 # --------------------------------------------------------------------------- main
 def run(ctx):
     ctx.assumptions += [
+        "the race detector treats sync.Pool and similar library internals as synchronisation and can therefore miss a "
+        "race in a given run; the contention runs compare results instead",
+        "state captured by closures (Outlines.FDSelect) and unexported package variables cannot be fingerprinted: they "
+        "are bound by race reports and result comparison only (location 'closure' / per-call 'idx' of the model)",
         "the Go race detector reports every pair of conflicting accesses that is executed without happens-before order "
         "in a replayed schedule (history_size=5); accesses that are not executed are not seen",
         "reflection reaches everything but closure variables; *time.Location is compared by identity (time.Local is "
